@@ -4,14 +4,20 @@
 //! usage: qv <property> [--tier quick|thorough] [--seed N] [--shard i]
 //!           [--nshards n] [--out FILE] [--case K] [--scale F] [--build TAG]
 
+mod gen;
+mod hmac;
 mod msgbuild;
 mod names;
 mod panicmon;
 mod props;
 mod rdataref;
+mod reqclass;
+mod reqgen;
 mod report;
 mod rng;
+mod srv;
 mod wire;
+mod zonemodel;
 
 use report::{Json, Report};
 
@@ -60,6 +66,11 @@ fn main() {
         eprintln!("usage: qv <property> [options]");
         std::process::exit(2);
     }
+    if args[1] == "dbg-req" {
+        panicmon::install();
+        props::debug_request(&args[2], args.get(3).map(|s| s == "tcp").unwrap_or(false));
+        return;
+    }
     let mut ctx = Ctx {
         prop: args[1].to_lowercase(),
         thorough: false,
@@ -98,6 +109,10 @@ fn main() {
         i += 2;
     }
     panicmon::install();
+    if let Err(e) = hmac::selftest() {
+        eprintln!("harness self-test failed: {}", e);
+        std::process::exit(2);
+    }
     let mut rep = Report::new(&ctx.prop.to_uppercase());
     let started = std::time::Instant::now();
     let known = props::run(&ctx, &mut rep);
